@@ -118,6 +118,7 @@ def _group_facts(res):
 
 def run(ctx):
     res = PropResult('C01')
+    K.engine_selftest(res)
     K.k1_block(res, ctx, 'contracts.c01', ['ExpressionTokenTranslator._group'], 'C01.')
     _group_facts(res)
     K.canary_contract(res, 'contracts.c01', 'ExpressionTokenTranslator._group', 'precedence_tree', 'c01_wf(result) and c01_rl(result) == 4')
